@@ -279,13 +279,28 @@ pub fn par_for<F: Fn(u64) + Sync>(n: u64, f: F) {
 /// indexes fully processed (== n when complete). Indexes are processed in ascending chunks so the
 /// completed part is a prefix of the space up to chunk granularity.
 pub fn par_for_budget<F: Fn(u64) + Sync>(ctx: &Ctx, n: u64, chunk: u64, f: F) -> (u64, bool) {
+    par_for_watch(ctx, n, chunk, &|i| json!({"index": i}), f)
+}
+
+/// seconds after which a single case that has not returned is reported as a hang
+pub const HANG_SECS: u64 = 60;
+
+/// Like par_for_budget, with a watchdog: every worker publishes the index it is working on; a case that does not
+/// return within HANG_SECS is a violation ("never hangs"): the replay file is written from `describe(index)`, the
+/// VIOLATION line is printed and the process exits with status 1 (a stuck thread cannot be cancelled).
+pub fn par_for_watch<F: Fn(u64) + Sync>(ctx: &Ctx, n: u64, chunk: u64, describe: &(dyn Fn(u64) -> J + Sync), f: F) -> (u64, bool) {
     let next = AtomicU64::new(0);
     let done = AtomicU64::new(0);
     let stop = AtomicBool::new(false);
+    let finished = AtomicBool::new(false);
     let threads = std::thread::available_parallelism().map(|x| x.get()).unwrap_or(8);
+    // slot = (index + 1, start time in ms since ctx.start); 0 = idle
+    let slots: Vec<(AtomicU64, AtomicU64)> = (0..threads).map(|_| (AtomicU64::new(0), AtomicU64::new(0))).collect();
     std::thread::scope(|s| {
-        for _ in 0..threads {
-            s.spawn(|| loop {
+        let mut workers = Vec::new();
+        for t in 0..threads {
+            let (next, done, stop, slots, f) = (&next, &done, &stop, &slots, &f);
+            workers.push(s.spawn(move || loop {
                 if stop.load(Ordering::Relaxed) {
                     break;
                 }
@@ -295,14 +310,44 @@ pub fn par_for_budget<F: Fn(u64) + Sync>(ctx: &Ctx, n: u64, chunk: u64, f: F) ->
                 }
                 let end = (start + chunk).min(n);
                 for i in start..end {
+                    slots[t].1.store(ctx.start.elapsed().as_millis() as u64, Ordering::Relaxed);
+                    slots[t].0.store(i + 1, Ordering::Release);
                     f(i);
+                    slots[t].0.store(0, Ordering::Release);
                 }
                 done.fetch_add(end - start, Ordering::Relaxed);
                 if ctx.over_budget() {
                     stop.store(true, Ordering::Relaxed);
                 }
-            });
+            }));
         }
+        let (slots, finished) = (&slots, &finished);
+        s.spawn(move || {
+            while !finished.load(Ordering::Relaxed) {
+                std::thread::sleep(std::time::Duration::from_millis(250));
+                let now = ctx.start.elapsed().as_millis() as u64;
+                for sl in slots.iter() {
+                    let idx = sl.0.load(Ordering::Acquire);
+                    let st = sl.1.load(Ordering::Relaxed);
+                    if idx != 0 && now.saturating_sub(st) > HANG_SECS * 1000 && sl.0.load(Ordering::Acquire) == idx {
+                        let case = describe(idx - 1);
+                        let sig = "hang:case did not return".to_string();
+                        let name = format!("{}/replays/{}-{:016x}.json", VERIF_DIR, ctx.prop, h64(&(sig.clone(), idx)));
+                        std::fs::create_dir_all(format!("{}/replays", VERIF_DIR)).ok();
+                        let body = json!({"property": ctx.prop, "signature": sig, "what": format!("a single case did not return within {} s (execution must terminate)", HANG_SECS), "case": case});
+                        std::fs::write(&name, serde_json::to_string_pretty(&body).unwrap()).ok();
+                        println!("VIOLATION property={} replay={}", ctx.prop, name);
+                        println!("  signature: {}", sig);
+                        println!("  what: a single case did not return within {} s: {}", HANG_SECS, case);
+                        std::process::exit(1);
+                    }
+                }
+            }
+        });
+        for w in workers {
+            let _ = w.join();
+        }
+        finished.store(true, Ordering::Relaxed);
     });
     let d = done.load(Ordering::Relaxed);
     (d, d >= n)
